@@ -8,6 +8,7 @@ A *signature set* (JSON-able):
               "positional": None | [pyname], "optional": [pyname], "iterable": [pyname],
               "incrementable": [pyname], "auto_shortflags": bool}, ...]}
   DEFAULT = {"k": "empty"} | {"k": "none"} | {"k": "str"|"int"|"bool"|"list", "v": ...}
+          | {"k": "other", "ty": type name, "src": python source of the default}
 """
 import json
 import os
@@ -27,6 +28,8 @@ def default_src(d):
         return None
     if k == "none":
         return "None"
+    if k == "other":
+        return d["src"]
     return repr(d["v"])
 
 
@@ -83,19 +86,82 @@ def ctx_specs(sigs):
 
 KINDS = {str: "KStr", int: "KInt", bool: "KBool", list: "KList"}
 
+# Other callable kinds (type(default) of a float / complex / bytes / date default).  What such a
+# callable makes of a piece of text is not invoke's business: the model receives it as an ORACLE
+# (coq/Common/ArgSpec.v KOther) -- the default outcome for the type plus the table of texts with
+# a different outcome, computed here by calling the callable itself on every text that can
+# reach it.
+import datetime as _dt  # noqa: E402
+OTHER_KINDS = {"float": float, "complex": complex, "bytes": bytes, "date": _dt.date}
+OTHER_DEFAULT_OUTCOME = {"float": "V", "complex": "V", "bytes": "T", "date": "T"}
+OTHER_DEFAULT_SRC = {"float": ["1.5", "0.0"], "complex": ["2j"], "bytes": ["b'x'"],
+                     "date": ["__import__('datetime').date(2020, 1, 2)"]}
+
+
+def other_repr(v):
+    """reserved spelling of a value of another type (coq/Common/SigTypes.v to_aval)"""
+    return "<%s %s>" % (type(v).__name__, repr(v))
+
+
+def cast_outcome(kind_name, text):
+    try:
+        return ("ok", repr(OTHER_KINDS[kind_name](text)))
+    except ValueError:
+        return "V"
+    except TypeError:
+        return "T"
+
+
+def oracle_texts(tokens):
+    """every text that can reach a kind callable: the substrings of the command-line tokens
+    (whole tokens, parts after '=', glued rests, re-split pieces) and '-c' for each character
+    (the members of a short-flag cluster)"""
+    out = set()
+    for t in tokens:
+        n = len(t)
+        for i in range(n + 1):
+            for j in range(i, n + 1):
+                out.add(t[i:j])
+        for ch in t:
+            out.add("-" + ch)
+    return out
+
+
+def oracle_table(kind_name, tokens):
+    dflt = OTHER_DEFAULT_OUTCOME[kind_name]
+    tbl = []
+    for s in sorted(oracle_texts(tokens)):
+        o = cast_outcome(kind_name, s)
+        if o != dflt:
+            tbl.append((s, o))
+    return dflt, tbl
+
 
 def spec_of_arg(a):
-    if a.kind not in KINDS:
-        raise ValueError("kind not modelled: %r" % (a.kind,))
     import inspect
     default = a.default
     if default is inspect.Signature.empty:
         # iterable parameter without default: Task.arg_opts passes Signature.empty through
         # as the Argument's default; list-kind arguments never read it (value starts as [])
         default = None
-    return {"names": list(a.names), "kind": KINDS[a.kind], "default": default,
-            "positional": bool(a.positional), "optional": bool(a.optional),
-            "incrementable": bool(a.incrementable), "attr_name": a.attr_name}
+    d = {"names": list(a.names), "default": canon_default(default),
+         "positional": bool(a.positional), "optional": bool(a.optional),
+         "incrementable": bool(a.incrementable), "attr_name": a.attr_name}
+    if a.kind in KINDS:
+        d["kind"] = KINDS[a.kind]
+    else:
+        name = getattr(a.kind, "__name__", None)
+        if name not in OTHER_KINDS or OTHER_KINDS[name] is not a.kind:
+            raise ValueError("kind not modelled: %r" % (a.kind,))
+        d["kind"] = "KOther"
+        d["kind_name"] = name
+    return d
+
+
+def canon_default(v):
+    if v is None or isinstance(v, (bool, int, str, list)):
+        return v
+    return other_repr(v)
 
 
 def spec_of_ctx(c):
@@ -167,7 +233,7 @@ def canon_val(v):
         return v
     if isinstance(v, list):
         return {"list": [x if isinstance(x, str) else repr(x) for x in v]}
-    return {"other": type(v).__name__}
+    return other_repr(v)
 
 
 def canon_result(res):
@@ -262,16 +328,34 @@ def aval(v):
     return '(AStr "<unmodelled>")'
 
 
-def argspec(a):
+def cast_out(o):
+    if o == "V":
+        return "CFailV"
+    if o == "T":
+        return "CFailT"
+    return "(COk %s)" % ct.s(o[1])
+
+
+def kind_term(a, tokens=()):
+    if a["kind"] != "KOther":
+        return a["kind"]
+    dflt, tbl = oracle_table(a["kind_name"], tokens)
+    return "(KOther %s %s %s)" % (ct.s(a["kind_name"]), cast_out(dflt),
+                                   ct.lst([ct.pair(ct.s(k), cast_out(o)) for k, o in tbl]))
+
+
+def argspec(a, tokens=()):
     return "(mkArg %s %s %s %s %s %s %s)" % (
-        ct.strs(a["names"]), a["kind"], aval(a["default"]), ct.b(a["positional"]),
+        ct.strs(a["names"]), kind_term(a, tokens), aval(a["default"]), ct.b(a["positional"]),
         ct.b(a["optional"]), ct.b(a["incrementable"]),
         ct.opt(None if a["attr_name"] is None else ct.s(a["attr_name"])))
 
 
-def ctxspec(c):
+def ctxspec(c, tokens=()):
+    """[tokens]: the command-line tokens of the case (the oracle of other-typed arguments is
+    computed from them)"""
     return "(mkCtx %s %s %s)" % (ct.opt(None if c["name"] is None else ct.s(c["name"])),
-                                 ct.strs(c["aliases"]), ct.lst([argspec(a) for a in c["args"]]))
+                                 ct.strs(c["aliases"]), ct.lst([argspec(a, tokens) for a in c["args"]]))
 
 
 def initsel(which):
@@ -294,7 +378,10 @@ def pobs(o):
 TASK_NAMES = ["build", "b", "test", "t", "deploy", "my_task", "a", "x", "clean", "e", "ab", "n"]
 PARAM_NAMES = ["name", "num", "n", "v", "verbose", "val", "a_b", "a", "ab", "x", "flag", "lst",
                "opt", "echo", "e", "dry", "f", "T", "c", "my_opt", "b", "abc", "no_x", "h",
-               "config", "l", "list", "w", "p"]
+               "config", "l", "list", "w", "p",
+               # names that collide with parameters of invoke's own call chain (Task.__call__,
+               # Executor, Call): a body must still receive them by keyword
+               "context", "self", "args", "kwargs", "task"]
 STR_VALUES = ["abc", "x", "", "5", "a b", "val", "-5", "meh"]
 # characters/shapes that break naive string handling (format(), strip(), replace("_","-"), ...)
 HOSTILE = ["{", "}", "{0}", "{name}", "%s", "my_app", " lead", "trail ", "a\nb", "UPPER", "\u00e9t\u00e9", ""]
@@ -312,8 +399,11 @@ def gen_default(rng):
         return {"k": "int", "v": rng.choice([0, 1, 5, -2])}
     if r < 0.76:
         return {"k": "bool", "v": False}
-    if r < 0.88:
+    if r < 0.86:
         return {"k": "bool", "v": True}
+    if r < 0.93:
+        ty = rng.choice(["float", "float", "float", "complex", "bytes", "date"])
+        return {"k": "other", "ty": ty, "src": rng.choice(OTHER_DEFAULT_SRC[ty])}
     return {"k": "list", "v": rng.choice([[], ["p"]])}
 
 
@@ -335,8 +425,10 @@ def gen_task(rng, name, max_params=5):
          "auto_shortflags": rng.random() < 0.8}
     for pn, d in params:
         r = rng.random()
-        if d["k"] in ("none", "str", "bool", "int") and r < 0.22:
-            t["optional"].append(pn)            # optional value, also on an int default
+        if d["k"] in ("none", "str", "bool", "int", "other") and r < 0.22:
+            t["optional"].append(pn)            # optional value, also on an int / float default
+        elif d["k"] in ("none", "str", "empty") and r > 0.97:
+            t["incrementable"].append(pn)       # a counter that does not start from a number (F-C07e)
         elif d["k"] in ("none", "empty") and r < 0.40:
             t["iterable"].append(pn)
             if r > 0.36:
@@ -398,7 +490,8 @@ def alphabet(specs, init_spec, rng=None):
         names.append(c["name"])
         names.extend(c["aliases"])
     toks.extend(names)
-    values = ["abc", "5", "-5", "x", "007", "a b", "+3", "1.5"] + names[:2] + HOSTILE
+    values = ["abc", "5", "-5", "x", "007", "a b", "+3", "1.5", "010", "0080", "+07", "-0",
+              "1234567890123456789", "2.5", "1e3", "3j", "1,5"] + names[:2] + HOSTILE
     toks.extend(values)
     shorts = []
     for c in specs + ([init_spec] if init_spec else []):
@@ -413,7 +506,12 @@ def alphabet(specs, init_spec, rng=None):
             if not fl.startswith("--"):
                 shorts.append(fl[1])
             tv = a["kind"] != "KBool" and not a["incrementable"]
-            toks.append(fl + "=" + ("5" if a["kind"] == "KInt" else "v"))
+            toks.append(fl + "=" + ("5" if a["kind"] == "KInt" else "2.5" if a["kind"] == "KOther" else "v"))
+            if tv and a["kind"] in ("KInt", "KOther"):
+                # number-looking texts right next to the flags whose type converts them
+                toks.append(fl + "=" + (rng.choice(INT_VALUES + OTHER_VALUES) if rng else "007"))
+                if not fl.startswith("--"):
+                    toks.append(fl + (rng.choice(["007", "0080", "010", "2.5", "1e3"]) if rng else "0080"))
             if tv or (rng and rng.random() < 0.3):
                 toks.append(fl + "=")
                 toks.append(fl + "=abc")
@@ -451,8 +549,12 @@ def spell_line(rng, specs, init_spec):
             if a["incrementable"] and rng.random() < 0.4 and not fl.startswith("--"):
                 return ["-" + fl[1] * rng.randint(2, 3)]
             return [fl]
-        val = rng.choice(["5", "-3", "42"] if a["kind"] == "KInt" and rng.random() < 0.85
-                         else ["abc", "x", "5", "v1", "a b", "-q", "", "build", "t"] + HOSTILE)
+        if a["kind"] == "KInt" and rng.random() < 0.85:
+            val = rng.choice(["5", "-3", "42"] + INT_VALUES)
+        elif a["kind"] == "KOther" and rng.random() < 0.85:
+            val = rng.choice(OTHER_VALUES)
+        else:
+            val = rng.choice(["abc", "x", "5", "v1", "a b", "-q", "", "build", "t"] + HOSTILE)
         if a["optional"] and rng.random() < 0.4:
             return [fl]
         r = rng.random()
@@ -490,14 +592,14 @@ def spell_line(rng, specs, init_spec):
         for fl, a, inv in chosen:
             if pending_pos and rng.random() < 0.5:
                 p = pending_pos.pop(0)
-                argv.append(rng.choice(["5", "abc", "x"] if p["kind"] != "KInt" else ["5", "7"]))
+                argv.append(rng.choice(["5", "abc", "x", "2.5"] if p["kind"] != "KInt" else ["5", "7", "007", "+07", "0080"]))
             if a in pending_pos:
                 pending_pos.remove(a)
             argv += spell_arg(a, fl, inv)
             argv += core_bits()
         for p in pending_pos:
             if rng.random() < 0.85:
-                argv.append(rng.choice(["5", "abc", "x"] if p["kind"] != "KInt" else ["5", "7"]))
+                argv.append(rng.choice(["5", "abc", "x", "2.5"] if p["kind"] != "KInt" else ["5", "7", "007", "+07", "0080"]))
     if rng.random() < 0.12:
         argv += ["--"] + [rng.choice(["foo", "--bar", "--", "a b", ""]) for _ in range(rng.randint(0, 3))]
     return argv
@@ -631,7 +733,9 @@ def has_digit_hazard(tok):
 # VALUE = {"b": bool} | {"n": count} | {"s": text} | {"t": True}
 PLAIN_VALUES = ["abc", "x1", "v", "hello", "a b", "1.5", "Z", "k=v", "a=b=c",
                 "my_app", " lead", "trail ", "{0}", "%s", "a\nb", "\u00e9t\u00e9", "{", ""]
-INT_VALUES = ["5", "42", "0", "7"]
+INT_VALUES = ["5", "42", "0", "7", "007", "010", "0080", "+07", "-0", "1234567890123456789"]
+# texts for arguments of another type (float, complex, bytes, date): some convert, most do not
+OTHER_VALUES = ["2.5", "1.50", "1e3", ".5", "7", "-1.5", "inf", "3j", "1,5", "abc", "", "0x1f", " 2 "]
 
 
 def is_short(spec_arg, k):
@@ -650,11 +754,24 @@ def required_positionals(c):
             and not (a["kind"] == "KList") and not a["incrementable"]]
 
 
+def positional_slots(c):
+    """positional parameters a value can be given to by position, in declaration order --
+    with or without a default (Spec/C01Spec.v positional_slot)"""
+    return [i for i, a in enumerate(c["args"]) if a["positional"] and takes_value(a)
+            and a["kind"] != "KList"]
+
+
 def gen_value(rng, a, task_words, dash_values):
     if a["kind"] == "KInt":
         if dash_values and rng.random() < 0.3:
             return rng.choice(["-3", "-12", "+4"])
         return rng.choice(INT_VALUES)
+    if a["kind"] == "KOther":
+        # texts the argument's own type converts (none at all for bytes / date: such an
+        # argument cannot be given a value on the command line)
+        cands = [v for v in OTHER_VALUES if cast_outcome(a["kind_name"], v) not in ("V", "T")
+                 and (dash_values or not v.startswith("-"))]
+        return rng.choice(cands) if cands else None
     if dash_values and rng.random() < 0.25:
         return rng.choice(["-q", "-5", "--zz", "-xyz", "-"])
     if rng.random() < 0.12 and task_words:
@@ -699,11 +816,15 @@ def gen_occurrences(rng, c, specs, dash_values=False, mention=0.55):
                     occs.append({"arg": i, "name": k, "form": "bare", "val": {"t": True}})
                     continue
                 v = gen_value(rng, a, words, dash_values and not a["optional"])
+                if v is None:
+                    continue
                 forms = ["next", "eq"]
                 if sk is not None:
                     forms.append("glued")
                 if i in req:
                     forms += ["pos", "pos", "pos"]
+                elif i in positional_slots(c):
+                    forms += ["pos", "pos"]       # a positional that declares a default (F-C01c)
                 form = rng.choice(forms)
                 if i in req and a["optional"]:
                     # a value-optional positional can only be given positionally
@@ -727,6 +848,14 @@ def fix_order(c, occs, words):
                 return i
         return None
 
+    slots = positional_slots(c)
+
+    def first_slot():
+        for i in slots:
+            if i not in given:
+                return i
+        return None
+
     pending = list(occs)
     flushed = False
     while pending or deferred:
@@ -738,7 +867,7 @@ def fix_order(c, occs, words):
         o = pending.pop(0)
         a = c["args"][o["arg"]]
         if o["form"] == "pos":
-            if first_missing() != o["arg"] or o["arg"] in given:
+            if first_slot() != o["arg"] or o["arg"] in given:
                 o = dict(o, form="next")
         if a["optional"] and takes_value(a) and first_missing() is not None \
                 and first_missing() != o["arg"] and not flushed:
@@ -866,7 +995,7 @@ def gen_invocation(rng, specs, dash_values=False, max_calls=3, clusters=True):
             nxt_pos = (not last) and "cluster" not in occs[k + 1] and occs[k + 1]["form"] == "pos"
             if (last and idx < len(calls) - 1) or nxt_pos:
                 a = c["args"][o["arg"]]
-                occs[k] = dict(o, form="eq", val={"s": "7" if a["kind"] == "KInt" else "ov"})
+                occs[k] = dict(o, form="eq", val={"s": "7" if a["kind"] in ("KInt", "KOther") else "ov"})
     return calls
 
 
@@ -919,6 +1048,11 @@ def expected_calls(specs, inv):
                     vals[o["arg"]] = int(s)
                 elif a["kind"] == "KBool":
                     vals[o["arg"]] = bool(s)
+                elif a["kind"] == "KOther":
+                    try:
+                        vals[o["arg"]] = other_repr(OTHER_KINDS[a["kind_name"]](s))
+                    except (ValueError, TypeError):
+                        vals[o["arg"]] = None      # inadmissible (the Coq [admissible] decides)
                 else:
                     vals[o["arg"]] = s
         for i, l in lists.items():
@@ -971,6 +1105,8 @@ def gen_wild_invocation(rng, specs, max_calls=3):
                         continue
                     if a["kind"] == "KInt":
                         v = rng.choice(INT_VALUES + ["-3", "+4", "abc", ""])
+                    elif a["kind"] == "KOther":
+                        v = rng.choice(OTHER_VALUES + ["-x", "k=v"])
                     else:
                         v = rng.choice(WILD_VALUES + PLAIN_VALUES + words[:3])
                     forms = ["next", "eq"] + (["glued"] if sk is not None else []) + \
@@ -1028,7 +1164,27 @@ def build_recording_collection(sigs, rec):
 def seen_config(c):
     cfg = c.config
     return {"echo": cfg.run.echo, "warn": cfg.run.warn, "hide": cfg.run.hide, "pty": cfg.run.pty,
-            "dry": cfg.run.dry, "dedupe": cfg.tasks.dedupe, "timeout": cfg.timeouts.command}
+            "dry": cfg.run.dry, "dedupe": cfg.tasks.dedupe, "timeout": cfg.timeouts.command,
+            # a key only the runtime configuration file (-f/--config) defines
+            "marker": cfg["verif_marker"] if "verif_marker" in cfg else None,
+            # what --prompt-for-sudo-password stored (getpass is patched in run_effects)
+            "sudo_password": cfg.sudo.password}
+
+
+SUDO_PASSWORD = "pw-verif"
+_runtime_file = []
+
+
+def runtime_marker_file():
+    """a runtime configuration file (for -f/--config) that defines one key the task bodies read"""
+    if not _runtime_file:
+        import tempfile
+        d = tempfile.mkdtemp(prefix="verif-rt-")
+        path = os.path.join(d, "rt.yaml")
+        with open(path, "w") as f:
+            f.write("verif_marker: from-runtime-file\n")
+        _runtime_file.append(path)
+    return _runtime_file[0]
 
 
 def run_effects(sigs, argv):
@@ -1049,6 +1205,9 @@ def run_effects(sigs, argv):
         out, err = io.StringIO(), io.StringIO()
         exc = None
         saved = os.environ.copy()
+        import getpass
+        saved_getpass = getpass.getpass
+        getpass.getpass = lambda prompt=None, stream=None: SUDO_PASSWORD
         try:
             with contextlib.redirect_stdout(out), contextlib.redirect_stderr(err):
                 try:
@@ -1060,6 +1219,7 @@ def run_effects(sigs, argv):
                 except BaseException as e:  # noqa
                     exc = type(e).__name__
         finally:
+            getpass.getpass = saved_getpass
             os.environ.clear()
             os.environ.update(saved)
         rem = None
@@ -1068,5 +1228,5 @@ def run_effects(sigs, argv):
         except Exception:
             pass
         return {"calls": rec, "exc": exc, "version_printed": "9.9.9-verif" in out.getvalue(),
-                "remainder": rem}
+                "remainder": rem, "stdout": out.getvalue()}
     return with_timeout(go, 20)
